@@ -11,7 +11,7 @@ from vlib.verdict import Case
 PROPERTY = 'C03'
 MANIFEST = {
  'level_text': 'Lean 4 theorems about a model of ircdb\'s capability layer, kernel-checked: for every database (users with capability sets, ignore/secure flags, hostmask patterns and logins; channels; global default sets and flag), hostmask, valid capability string and flag combination, checkCapability returns `holds(positive form) xor isAnti` where `holds` is the documented precedence list (refinement of the code model to a decision list); hence a capability and its anti-capability get opposite answers, an owner holds everything, unrecognised users depend on defaults only, answers are invariant under IRC case folding of capability and channel names; the string algebra laws (invert is an involution, flips isAnti, commutes with toLower; fromChannel∘makeChannel); set consistency is preserved by every edit; the --allow-default-owner guard always leaves -owner in the default set. The rfc1459 table, defaultOff and the shipped default capabilities are re-extracted from /repo on every run; the model is tied to src/ircdb.py by a differential run (tens of thousands of decisions per run on real objects) that also evaluates the property statement on the implementation.',
- 'level_note': 'Trusted: Lean kernel; axioms propext/Classical.choice/Quot.sound only; harness/extractors/ircdb_caps.py; the correspondence harness (its generators bound what it sees). Modelled and proved: capability string algebra, CapabilitySet/UserCapabilitySet add/remove/contains/check, IrcUser._checkCapability, IrcChannel._checkCapability, _checkCapabilityForUnknownUser, checkCapability with the three ignore* flags and the secure re-check, checkCapabilities, DefaultCapabilities.setValue guard, a cache-free user lookup (glob matcher, logins with timeout). Not modelled here: the stateful lookup with caches and duplicate removal (C04 proves it answers what the cache-free lookup answers); world.testing short-cut; str.lower()/re.I outside ASCII (channel and user names in generated cases are ASCII); capability strings whose positive form starts with "-" or is itself a channel capability are outside the theorems\' domain (counter-examples proved) but inside the correspondence.',
+ 'level_note': 'Trusted: Lean kernel; axioms propext/Classical.choice/Quot.sound only; harness/extractors/ircdb_caps.py; the correspondence harness (its generators bound what it sees). Modelled and proved: capability string algebra, CapabilitySet/UserCapabilitySet add/remove/contains/check, IrcUser._checkCapability, IrcChannel._checkCapability, _checkCapabilityForUnknownUser, checkCapability with the three ignore* flags and the secure re-check, checkCapabilities, DefaultCapabilities.setValue guard, a cache-free user lookup (glob matcher, logins with timeout). Not modelled here: the stateful lookup with caches and duplicate removal (C04 proves it answers what the cache-free lookup answers); world.testing short-cut; str.lower() outside ASCII in the differential run (channel and user names in generated scenarios are ASCII; the case-insensitivity of channel names is also proved with str.lower as a parameter under the contract LowerOK, which a side run tests against CPython on the BMP together with the clause itself on the implementation; hostmask matching is ASCII-only case-insensitive and modelled for all of Unicode); capability strings whose positive form starts with "-" or is itself a channel capability are outside the theorems\' domain (counter-examples proved) but inside the correspondence.',
  'technique': 'Lean 4 proof (refinement to a decision list, invariants under edits) + table extraction + differential correspondence',
  'design_ref': 'DESIGN.md §6 C03',
 }
@@ -24,7 +24,8 @@ THEOREMS = ['C03.check_eq_spec', 'C03.anti_symm', 'C03.owner_all', 'C03.case_ins
             'C04.checkCapability_cache_free', 'C04.cache_transparent',
             # obligations on the extracted tables (decide against what /repo says now)
             'C03.rfc1459_table_ok', 'C03.chanTypes_no_dash', 'C03.chanTypes_no_o', 'C03.channel_default_ok',
-            'C03.channel_default_strong', 'C03.default_caps_valid', 'C03.isCapability_eq_splitWs']
+            'C03.channel_default_strong', 'C03.default_caps_valid', 'C03.isCapability_eq_splitWs',
+            'C03.chanKeyP_case_insens', 'C03.asciiLower_ok']
 TRUSTED = ['Lean 4.33.0 kernel; axioms ⊆ {propext, Classical.choice, Quot.sound}',
            'harness/extractors/ircdb_caps.py (rfc1459 table, chantypes/channellen, defaultOff, shipped default capabilities → Gen/IrcDbCaps.lean)',
            'harness/c03.py generators, canonicalisation and the independent decision-list oracle; hex line protocol',
@@ -605,6 +606,33 @@ def alg_case(impl, s, kind='algebra'):
     c.impl += '\n' + ('1' if o_valid(s) else '0')
     return c, ['%s\t%s' % (o, wire.enc(s)) for o in ALG_OPS + ['validCap']]
 
+# ---- str.lower() contract (oracle only) ------------------------------------------------
+LOWER_SUSPECTS = [0x130, 0x131, 0x17f, 0x212a, 0x212b, 0xdf, 0x1e9e, 0x3a3, 0x3c2, 0x3c3, 0xb5, 0x1c5, 0xfb01]
+def lower_contract_cases(impl, r, whole_bmp):
+    """`C03.LowerOK` — the contract under which channel-name case-insensitivity is proved with str.lower as a
+    parameter — tested against CPython's str.lower, and the clause itself on the implementation: a channel name and
+    its IRC-lowered form get the same record.  Not compared with the model (which lowers ASCII only)."""
+    iu = impl.b.ircutils; ircdb = impl.ircdb
+    cps = range(0x20, 0x10000) if whole_bmp else LOWER_SUSPECTS + [r.randrange(0x80, 0x10000) for _ in range(1500)] + list(range(0x20, 0x100))
+    C = ircdb.ChannelsDictionary()
+    overfold = []
+    for cp in cps:
+        if 0xD800 <= cp < 0xE000 or cp in (0x2c, 0x07): continue
+        c = chr(cp)
+        if c.isspace(): continue
+        ok = True; msg = ''
+        for s_ in ('#' + c, '#X[' + c + 'y~', '#' + c + '\u03a3', '#A' + c + '\u03a3b'):
+            a = iu.toLower(iu.toLower(s_).lower()); b_ = iu.toLower(s_.lower())
+            if a != b_:
+                ok = False; msg = 'contract LowerOK fails for %r: toLower(lower(toLower(s))) = %r, toLower(lower(s)) = %r' % (s_, a, b_)
+            if len(s_) <= 50 and C.getChannel(s_) is not C.getChannel(iu.toLower(s_)):
+                ok = False; msg = 'channel %r and its IRC-lowered form %r get different records' % (s_, iu.toLower(s_))
+        if c.lower() != c and iu.toLower(c) == c and len(overfold) < 8:
+            overfold.append('#%s / #%s' % (c, c.lower()))
+        C.channels.clear()
+        yield Case({'op': 'lower-contract', 'cp': cp}, oracle_ok=ok, oracle_msg=msg, tags=('lower-contract',) if cp >= 0x80 else (), kind='lower-contract')
+    impl.overfold = overfold
+
 # ---- exhaustive small universe ---------------------------------------------------------
 def exhaustive_scenarios():
     """1 user (+ an unknown sender) × capability foo × every placement/polarity × all flags"""
@@ -646,11 +674,14 @@ def explore(ctx, n_wf, n_hostile, n_alg, exhaustive=False, corpus=(), stream='c0
         c, ls, d = run_scenario(impl, gen_scenario(r, False), False, 'hostile'); decisions += d; add(c, ls)
     for _ in range(n_alg):
         c, ls = alg_case(impl, gen_alg_string(r)); add(c, ls)
+    for c in lower_contract_cases(impl, r, whole_bmp=exhaustive):
+        cases.append(c)
     if exhaustive:
         for ops in exhaustive_scenarios():
             c, ls, d = run_scenario(impl, ops, True, 'exhaustive'); decisions += d
             c.input = {'ops': [list(o) for o in ops[:12]] + ['… %d more query ops (generated by exhaustive_scenarios)' % max(0, len(ops) - 12)], 'wf': True} if c.oracle_ok else c.input
             add(c, ls)
+    explore.overfold = getattr(impl, 'overfold', [])
     return cases, lines, spans, decisions
 
 def fill_model(cases, lines, spans):
@@ -687,7 +718,8 @@ def run(ctx):
                             assumptions=['Python asserts enabled', 'world.testing is False',
                                          'channel and user names in generated cases are ASCII (str.lower / re.I outside ASCII not modelled)',
                                          'the clock does not run backwards within a scenario'],
-                            extra={'decisions': decisions, 'exhaustive_small_universe': bool(ctx.thorough)},
+                            extra={'decisions': decisions, 'exhaustive_small_universe': bool(ctx.thorough),
+                                   'observation_channel_names_folded_beyond_rfc1459 (str.lower in getChannel; same record for)': getattr(explore, 'overfold', [])},
                             t0=ctx.t0)
 
 def replay(ctx, path):
